@@ -143,6 +143,13 @@ func applyTarget(target []byte, st *state.State, ca cache.Memory, ctx context.Co
 
 	switch string(target) {
 	case "_":
+		top, err := st.Top()
+		if err != nil {
+			return sym, idx, err
+		}
+		if top {
+			return sym, idx, fmt.Errorf("cannot move up from the entry node")
+		}
 		sym, err = st.Up()
 		if err != nil {
 			return sym, idx, err
